@@ -61,6 +61,16 @@ def wire_cases(ctx, classes, n_schema, gen, per_class, p_send, p_unknown):
             c["enc"] = enc
             c["plain_ref"] = plain
             c["c02_ok"] = enc[0] == "ok" and enc[1] == plain
+            if c["c02_ok"] and has_tags and want_default is True:
+                # the same instance with its tagged int / str values replaced by EQUAL instances of subclasses of their
+                # types (an IntEnum member such as ErrorCode.none, a str subclass): equal entities, hence the same bytes
+                twin = subclass_twin(inst)
+                if twin is not None:
+                    enc2 = cc.impl_encode(cls, twin)
+                    if not (twin == inst and enc2[0] == "ok" and enc2[1] == plain):
+                        c["c02_ok"] = False
+                        c["c02_why"] = ("an equal instance whose tagged values are instances of int/str SUBCLASSES (e.g. an IntEnum member equal "
+                                        "to the default) is encoded differently: " + (enc2[1].hex()[:200] if enc2[0] == "ok" else str(enc2[1])))
             # C05 on the implementation: decode(canonical) re-encodes to the same bytes
             c05_ok, c05_why = True, None
             try:
@@ -74,6 +84,38 @@ def wire_cases(ctx, classes, n_schema, gen, per_class, p_send, p_unknown):
             c["c05_ok"], c["c05_why"] = c05_ok, c05_why
             cases.append(c)
     return cases
+
+
+class _IntSub(int):
+    pass
+
+
+class _StrSub(str):
+    pass
+
+
+def subclass_twin(inst):
+    """dataclasses.replace(inst, tagged int/str fields := equal subclass instances); None if there is nothing to replace"""
+    import dataclasses
+    import enum
+
+    changes = {}
+    for f in dataclasses.fields(inst):
+        if "tag" not in f.metadata:
+            continue
+        v = getattr(inst, f.name)
+        if type(v) is bool or isinstance(v, enum.Enum):
+            continue
+        if isinstance(v, int):
+            changes[f.name] = enum.IntEnum("Twin", {"member": int(v)}).member if len(changes) % 2 == 0 else _IntSub(v)
+        elif isinstance(v, str):
+            changes[f.name] = _StrSub(v)
+    if not changes:
+        return None
+    try:
+        return dataclasses.replace(inst, **changes)
+    except Exception:  # noqa
+        return None
 
 
 def _nested_decorated(d):
@@ -134,7 +176,7 @@ def describe(classes, c):
     j["reference_encoding"] = c["ref"].hex()
     j["decorations"] = {"send_default": [bool(x) for x in c["dv"].send],
                         "unknown": [[t, p.hex()] for t, p in c["dv"].unknown]}
-    for k in ("c03_why", "c05_why"):
+    for k in ("c03_why", "c05_why", "c02_why"):
         if c.get(k):
             j[k] = c[k]
     return j
